@@ -100,8 +100,9 @@ _sym_cache = {}
 def _syms(e):
     """names of uninterpreted constants AND functions occurring in e"""
     i = e.get_id()
-    if i in _sym_cache:
-        return _sym_cache[i]
+    hit = _sym_cache.get(i)
+    if hit is not None and hit[0].eq(e):     # ids are recycled after GC: keep the term alive and compare
+        return hit[1]
     out = set()
     seen = set()
     stack = [e]
@@ -117,8 +118,8 @@ def _syms(e):
             stack.extend(t.children())
     if len(_sym_cache) > 200000:
         _sym_cache.clear()
-    _sym_cache[i] = frozenset(out)
-    return _sym_cache[i]
+    _sym_cache[i] = (e, frozenset(out))
+    return _sym_cache[i][1]
 
 
 # ---------------------------------------------------------------------------------------------
